@@ -83,7 +83,9 @@ def _task(args):
             r = mod.run(tier=extra['tier'], seed=extra['seed'], budget_s=extra['budget_s'], jobs=extra.get('jobs', 1))
             r.update(task='bounded', module=name, seconds=round(time.time() - t0, 2), bound=getattr(mod, 'BOUND', ''))
             return r
-    except Exception as e:
+    except BaseException as e:
+        if isinstance(e, (KeyboardInterrupt, SystemExit)):
+            raise
         return {'task': kind, 'harness': name, 'module': name, 'crash': '%r\n%s' % (e, traceback.format_exc(limit=10))}
 
 
